@@ -3,6 +3,7 @@ package drv
 import (
 	"context"
 	"fmt"
+	"io"
 	"net/http"
 	"net/url"
 	"reflect"
@@ -27,6 +28,7 @@ type paramSpec struct {
 type supply map[string][]string
 
 func modeParams(c *Ctx) {
+	nreq := 0
 	if len(c.Ops) == 0 {
 		return
 	}
@@ -108,6 +110,25 @@ func modeParams(c *Ctx) {
 			c.addAllCredentials(r, "good")
 			if op.Spec.Body != nil {
 				r.Body = http.NoBody
+			}
+			nreq++
+			if op.Spec.Body == nil && nreq%2 == 0 && (op.Method == "POST" || op.Method == "PUT" || op.Method == "PATCH") {
+				// a form body whose fields are named like the query parameters: query
+				// parameters are what the URL carries, whatever the body says
+				form := url.Values{}
+				for _, p := range op.Spec.Params {
+					if p.In == "query" {
+						form.Add(p.Name, "from-the-body")
+						form.Add(p.Name, "twice")
+					}
+				}
+				if body := form.Encode(); body != "" {
+					r.Body = io.NopCloser(strings.NewReader(body))
+					r.ContentLength = int64(len(body))
+					r.Header.Set("Content-Type", "application/x-www-form-urlencoded")
+					what += ", form body with same-named fields"
+					c.Stat("form_body_requests", 1)
+				}
 			}
 			in := fmt.Sprintf("%s %s?%s headers=%v (%s)", op.Method, path, q.Encode(), hd, what)
 			func() {
